@@ -74,10 +74,25 @@ func VerifC08RealRemote() {
 	go poolSide.Serve()
 	go agentSide.Serve()
 	VerifRegisterRemote(p, host, poolSide)
+	// a hostile host may also send replies nobody asked for, the same id twice: that can stall
+	// the reading side of ITS connection, but the client's request (another connection) is still served
+	dups := verifapi.Param("duplicates", 0) == 1 && verifapi.Bool("duplicate-unsolicited-replies")
+	if dups {
+		for i := 0; i < 2; i++ {
+			ba <- &jsonrpc2.Message{ID: []byte("77"), Version: jsonrpc2.Version, Response: &jsonrpc2.Response{Result: []byte("null")}}
+		}
+		verifapi.Quiesce()
+	}
 	nonce := VerifFreshNonce()
 	req := PeerRequest{Num: 1}
 	resp, err := p.Peer(context.Background(), sigs.SignFor(client, "vipnode_peer", nonce, req), client, nonce, req)
 	verifapi.Reach("c08.real")
+	if dups {
+		// the host's replies may never be read again: whether it is returned depends on that; what
+		// matters is that the request came back at all
+		verifapi.Assert(resp != nil || err != nil, "c15.request-is-answered")
+		return
+	}
 	if agent.behaviour == 0 {
 		verifapi.Assert(err == nil && resp != nil && len(resp.Peers) == 1 && resp.Peers[0].ID == host, "c08.real.acknowledging-host-returned")
 		verifapi.Assert(len(agent.asked) == 1 && agent.asked[0] == "vipnode_whitelist", "c08.real.host-was-instructed-before-the-reply")
